@@ -174,6 +174,8 @@ def methods_touching(cls_node, attrs):
     for f in cls_node.body:
         if not isinstance(f, ast.FunctionDef) or f.name == "__init__" or not f.args.args or f.decorator_list:
             continue
+        if f.name.startswith("_") and not (f.name.startswith("__") and f.name.endswith("__")):
+            continue      # a private helper runs in place of its call (it may run inside __init__, before the invariant holds)
         s = f.args.args[0].arg
         if any(isinstance(n, ast.Attribute) and isinstance(n.value, ast.Name) and n.value.id == s and n.attr in attrs for n in ast.walk(f)) \
                 or any(isinstance(n, ast.Call) for n in ast.walk(f)):
@@ -290,7 +292,9 @@ def _context_contracts(cls):
             fields[a] = Maker(lambda ex, st, name: VUnk(name), desc="any")
         out.append(FnContract(
             target=f"{ZC}::ZipContext.{f.name}",
-            params=[("self", p_obj("ZipContext", fields))] + [(p, p_str()) for p in others],
+            params=[("self", p_obj("ZipContext", fields))] + [
+                (a.arg, p_str() if a.annotation is not None and ast.unparse(a.annotation) == "str"
+                 else Maker(lambda ex, st, name: VUnk(name), desc="any")) for a in f.args.args[1:]],
             ensures=[("handle-closed-not-replaced" if closes else "class-invariant-kept", inv_kept)],
             raises=[Raises("Exception", sub=True, label="any failure of the member access: class invariant kept", when=inv_kept)],
             note="under the class invariant established by __init__: every member access goes to the accepted open handle",
